@@ -5,8 +5,9 @@
 -/
 import SqlDt.Lemmas.Div
 import SqlDt.Model.Serde
+import SqlDt.Props.C01
 namespace SqlDt.C05
-open SqlDt Gen Parser
+open SqlDt Gen Parser Spec
 
 /-! ### rejection rules, for every type, clock, parser state and input -/
 
@@ -164,6 +165,88 @@ theorem dt_tryFrom_carry :
 
 /-- Date: Feb 30, month 13, day 0 … are errors with the documented kinds (never normalised). -/
 theorem date_tryFrom (dt : NDT) : tryFromNDT .D dt = Date.tryFromYmd dt.year dt.month dt.day := rfl
+
+/-- TIMESTAMP, final conversion: real calendar date required (Feb 30, month 13, day 0 … are errors of the documented
+    kinds, never normalised), hour<24, minute<60, second<60; the value is the exact microsecond count, a fraction of
+    1_000_000 µs (after half-up rounding) carries into the seconds and further; a carry past 9999-12-31 23:59:59.999999
+    is `DateOutOfRange`. -/
+theorem ts_tryFrom (dt : NDT) (hv : ValidYMD dt.year dt.month dt.day) (hh : 0 ≤ dt.hour ∧ dt.hour < 24)
+    (hm : 0 ≤ dt.minute ∧ dt.minute < 60) (hs : 0 ≤ dt.sec ∧ dt.sec < 60) :
+    tryFromNDT .TS dt =
+      Timestamp.tryFromUsecs (dayNumber dt.year dt.month dt.day * 86400000000 + dt.hour * 3600000000 +
+        dt.minute * 60000000 + dt.sec * 1000000 + dt.usec) := by
+  obtain ⟨y1, y9, m1, m12, d1, dd⟩ := hv
+  have d31 : dt.day ≤ 31 := by
+    unfold dim at dd; split at dd
+    · split at dd <;> omega
+    · split at dd <;> omega
+  have hdn := Lemmas.fromYmd_eq_dayNumber dt.year dt.month dt.day ⟨by omega, by omega⟩ ⟨m1, m12⟩
+  unfold Date.fromYmdUnchecked at hdn
+  simp only [tryFromNDT, Date.validateYmd, Time.validateHms, DATE_MIN_YEAR, DATE_MAX_YEAR, MONTHS_PER_YEAR,
+    HOURS_PER_DAY, MINUTES_PER_HOUR, SECONDS_PER_MINUTE, USECONDS_PER_DAY, USECONDS_PER_HOUR, USECONDS_PER_MINUTE,
+    USECONDS_PER_SECOND, Lemmas.daysOfMonth_eq _ _ (by omega : 0 ≤ dt.year) ⟨m1, m12⟩]
+  have c1 : ¬ (dt.year < 1 ∨ dt.year > 9999) := by omega
+  have c2 : ¬ (dt.month < 1 ∨ dt.month > 12) := by omega
+  have c3 : ¬ (dt.day < 1 ∨ dt.day > 31) := by omega
+  have c4 : ¬ (dt.day > dim dt.year dt.month) := by omega
+  have c5 : ¬ dt.hour ≥ 24 := by omega
+  have c6 : ¬ dt.minute ≥ 60 := by omega
+  have c7 : ¬ dt.sec ≥ 60 := by omega
+  simp only [c1, c2, c3, c4, c5, c6, c7, ↓reduceIte, bind, Except.bind]
+  congr 1
+  omega
+
+/-- …and each out-of-range component is rejected with its own error kind, in this order. -/
+theorem ts_tryFrom_rejects (dt : NDT) :
+    (dt.year < 1 ∨ dt.year > 9999 → tryFromNDT .TS dt = .error .DateOutOfRange) ∧
+    (1 ≤ dt.year ∧ dt.year ≤ 9999 → (dt.month < 1 ∨ dt.month > 12) → tryFromNDT .TS dt = .error .InvalidMonth) ∧
+    (1 ≤ dt.year ∧ dt.year ≤ 9999 → 1 ≤ dt.month ∧ dt.month ≤ 12 → (dt.day < 1 ∨ dt.day > 31) →
+        tryFromNDT .TS dt = .error .InvalidDay) ∧
+    (1 ≤ dt.year ∧ dt.year ≤ 9999 → 1 ≤ dt.month ∧ dt.month ≤ 12 → 1 ≤ dt.day ∧ dt.day ≤ 31 →
+        dt.day > dim dt.year dt.month → tryFromNDT .TS dt = .error .InvalidDate) := by
+  refine ⟨?_, ?_, ?_, ?_⟩
+  · intro h; simp [tryFromNDT, Date.validateYmd, DATE_MIN_YEAR, DATE_MAX_YEAR, h, bind, Except.bind]
+  · intro hy h
+    have c1 : ¬ (dt.year < 1 ∨ dt.year > 9999) := by omega
+    simp [tryFromNDT, Date.validateYmd, DATE_MIN_YEAR, DATE_MAX_YEAR, MONTHS_PER_YEAR, c1, h, bind, Except.bind]
+  · intro hy hm h
+    have c1 : ¬ (dt.year < 1 ∨ dt.year > 9999) := by omega
+    have c2 : ¬ (dt.month < 1 ∨ dt.month > 12) := by omega
+    simp [tryFromNDT, Date.validateYmd, DATE_MIN_YEAR, DATE_MAX_YEAR, MONTHS_PER_YEAR, c1, c2, h, bind, Except.bind]
+  · intro hy hm hd h
+    have c1 : ¬ (dt.year < 1 ∨ dt.year > 9999) := by omega
+    have c2 : ¬ (dt.month < 1 ∨ dt.month > 12) := by omega
+    have c3 : ¬ (dt.day < 1 ∨ dt.day > 31) := by omega
+    have h' : dt.day > daysOfMonth dt.year dt.month := by rw [Lemmas.daysOfMonth_eq _ _ (by omega) hm]; exact h
+    simp [tryFromNDT, Date.validateYmd, DATE_MIN_YEAR, DATE_MAX_YEAR, MONTHS_PER_YEAR, c1, c2, c3, h', bind, Except.bind]
+
+/-- DAY OF YEAR at the level of the parser: accepted exactly for 1 ≤ n ≤ 365 (366 in a leap year); the decoded month/day
+    must agree with a month or day the text also supplied, and fills in whichever is missing. -/
+theorem resolveDoy_range (st : St) (dt : NDT) (n : Int) (hn : st.doy = some n)
+    (hbad : n = 0 ∨ (isLeapYear dt.year = false ∧ n > 365) ∨ (isLeapYear dt.year = true ∧ n > 366)) :
+    resolveDoy st dt = .error .ParseError := by
+  unfold resolveDoy
+  simp only [hn]
+  have : n = 0 ∨ (¬ isLeapYear dt.year = true ∧ n > 365) ∨ (isLeapYear dt.year = true ∧ n > 366) := by
+    rcases hbad with h | h | h
+    · exact Or.inl h
+    · exact Or.inr (Or.inl ⟨by simp [h.1], h.2⟩)
+    · exact Or.inr (Or.inr h)
+  rw [if_pos this]; rfl
+
+/-- The weekday named or numbered in the text must be the weekday of the assembled date; otherwise an error. -/
+theorem finish_weekday (ty : Ty) (st : St) (dt : NDT) (reads : Nat) (w date : Int) (hw : st.dow = some w)
+    (hd : Date.tryFromYmd dt.year dt.month dt.day = .ok date) :
+    finish ty st dt reads =
+      if Date.dayOfWeek date = w then (tryFromNDT ty dt).map (fun v => (v, reads)) else .error .ParseError := by
+  unfold finish
+  simp only [hw, hd, bind, Except.bind]
+  by_cases h : Date.dayOfWeek date = w
+  · subst h
+    simp only [ne_eq, not_true_eq_false, ↓reduceIte]
+    cases tryFromNDT ty dt <;> rfl
+  · simp only [h, ne_eq, not_false_eq_true, ↓reduceIte]; rfl
+
 
 /-! ### leftover input -/
 
